@@ -767,19 +767,17 @@ mod response {
         /// Returns any errors from the underlying reader.
         #[inline]
         pub async fn read_to_bytes(&mut self, max_len: usize) -> io::Result<Bytes> {
-            let len = self.content_length.min(max_len);
+            // What is left of the body, if some of it has been read through `AsyncRead`.
+            let len = self.content_length.saturating_sub(self.offset).min(max_len);
 
             if len == 0 {
                 return Ok(Bytes::new());
             }
             let mut buffer = BytesMut::with_capacity(len);
-            if len < self.bytes.len() {
-                buffer.extend_from_slice(&self.bytes[..len]);
-                self.offset = len;
-            } else {
-                buffer.extend_from_slice(&self.bytes);
-                self.offset = self.bytes.len();
-            }
+            let early = self.bytes.get(self.offset..).unwrap_or(&[]);
+            let early = &early[..early.len().min(len)];
+            buffer.extend_from_slice(early);
+            self.offset += early.len();
             // Never take more from the connection than what is left of this body:
             // `read_to_end_or_max` may hand the reader a window larger than that.
             let left = (len - buffer.len()) as u64;
